@@ -89,10 +89,10 @@ Lemma T_order : listed_in_order W table = true.
 Proof. pose proof Htracks as HT. unfold tracks in HT. repeat (apply andb_prop in HT; let H := fresh "HC" in destruct HT as [HT H]). auto. Qed.
 Lemma T_nodup : NoDup (map t_id table).
 Proof. pose proof Htracks as HT. unfold tracks in HT. repeat (apply andb_prop in HT; let H := fresh "HC" in destruct HT as [HT H]). apply nodup_nat_NoDup; auto. Qed.
-Lemma T_state e : In e W -> state_matches chain pool e = true.
+Lemma T_state e : In e W -> state_matches table chain pool e = true.
 Proof.
   pose proof Htracks as HT. unfold tracks in HT. repeat (apply andb_prop in HT; let H := fresh "HC" in destruct HT as [HT H]).
-  match goal with H : forallb (state_matches chain pool) W = true |- _ => rewrite forallb_forall in H; auto end.
+  match goal with H : forallb (state_matches table chain pool) W = true |- _ => rewrite forallb_forall in H; auto end.
 Qed.
 Lemma T_complete t : In t table -> present chain pool (t_id t) = true -> relevant table t = true -> in_wallet W t = true.
 Proof.
